@@ -261,6 +261,12 @@ def run(ctx):
         pa = f.params[0]["name"] if f.params else "args"
         mid = [e for _, _, e in els if e["expr"].get("k") not in ("decl", "return") and not (e["expr"].get("k") == "decl")]
         mid = [e for e in mid if "using" not in (e.get("text") or "")[:6]]
+        # the pack may be expanded inside the initialiser of a dummy array (`const int expand[] = { (void(msg << forward(args)), 0)... };`) that is then only discarded
+        arrs = [(e, v["name"]) for _, _, e in els if e["expr"].get("k") == "decl" for v in e["expr"]["vars"] if "stringstream" not in (v.get("type") or "") and "[" in (v.get("type") or "")]
+        if len(arrs) == 1:
+            discards = [e for e in mid if re.fullmatch(r"\(?(static_cast<void>|\(void\))\(?%s\)?\)?|void\{%s\}" % (re.escape(arrs[0][1]), re.escape(arrs[0][1])), fmt(e["expr"]))]
+            if len(discards) == len(mid):
+                mid = [arrs[0][0]]
         fam_call = len(sv) == 1 and len(mid) == 1 and hands_on(fmt(mid[0]["expr"]), sv[0], pa)
         in_list = len(sv) == 1 and len(mid) == 1 and expands_in_list(mid[0], sv[0], pa)
         uses_family = uses_family or fam_call
